@@ -384,6 +384,8 @@ def run_case(args):
                         inputs[nm] = model_value(model, spec[0], spec[1], spec[2] if len(spec) > 2 else None)
                     rec["inputs"] = {k: _jsonable(v) for k, v in inputs.items()}
                     st, nctx, ndetail = native_run(h, case, values=inputs)
+                    native_clauses = bool(getattr(nctx, "results", None))
+                    rec["internal"] = vname in p.info.get("_internal", ())
                     if st != "violated":
                         # concretiser: seeded random search for a real input that violates the same harness
                         import zlib
@@ -405,6 +407,7 @@ def run_case(args):
                                 st2, nctx2, nd2 = native_run(h, case, values=near)
                             except Exception:
                                 continue
+                            native_clauses = native_clauses or bool(getattr(nctx2, "results", None))
                             if st2 == "violated":
                                 st, ndetail = st2, nd2 + " (input found next to the solver's model)"
                                 inputs = dict(nctx2.inputs)
@@ -413,6 +416,7 @@ def run_case(args):
                     if st != "violated":
                         for _ in range(opts.get("concretise", 300)):
                             st2, nctx2, nd2 = native_run(h, case, rng=crng)
+                            native_clauses = native_clauses or bool(getattr(nctx2, "results", None))
                             if st2 == "violated":
                                 st, ndetail = st2, nd2 + " (input found by seeded random search)"
                                 inputs = dict(nctx2.inputs)
@@ -420,6 +424,7 @@ def run_case(args):
                                 break
                     rec["native"] = st
                     rec["native_detail"] = ndetail
+                    rec["native_clauses"] = native_clauses
                     rec["smt_model"] = str(model)[:1500]
                     # is there a violation outside the known-finding scopes?
                     scopes = known_scopes.get(out["name"] + "/" + vname) or known_scopes.get(out["name"] + "/*")
@@ -718,6 +723,7 @@ def run_property(pid, module_names, tier="quick", jobs=None, only=None):
     results.sort(key=lambda r: r.get("name", r["harness"]))
 
     violations, undecided, crashes, known_lines = [], [], [], []
+    degraded, fallback_done = [], {}
     more_refuted = {}
     n_obl = n_dis = 0
     backends = {}
@@ -729,8 +735,24 @@ def run_property(pid, module_names, tier="quick", jobs=None, only=None):
         expect = h.opts.get("expect", "discharged")
         name = r.get("name", r["harness"])
         if r["error"]:
-            if r["error"].startswith("out-of-reach"):
-                undecided.append("%s: %s" % (name, r["error"]))
+            if r["error"].startswith("out-of-reach") or (r["error"].startswith("crash:") and not r["error"].startswith("crash: canary")):
+                # the function is outside the verifier's reach in this tree (a construct outside the interpreted subset, or the
+                # harness lost the local / call it is anchored to): nothing is proved about it; the same harness is run on the
+                # real code as a bounded stand-in, and a failing input found there is a violation like any other
+                if expect == "refuted":
+                    # a canary has no native counterpart (its goal is false by construction): it could not be run in this tree
+                    degraded.append("%s: canary not run in this tree (%s)" % (name, r["error"].split("\n")[0][:160]))
+                    continue
+                fb = _native_fallback(pid, module_names, h, r["case"], name, tier, seed)
+                if fb[0] == "violated":
+                    violations.append(fb[1])
+                elif fb[0] == "ok":
+                    degraded.append("%s: not decided deductively (%s); %d native evaluations of the same harness held" %
+                                    (name, r["error"].split("\n")[0][:160], fb[1]))
+                elif r["error"].startswith("out-of-reach"):
+                    undecided.append("%s: %s" % (name, r["error"]))
+                else:
+                    crashes.append("%s: %s" % (name, r["error"]))
             else:
                 crashes.append("%s: %s" % (name, r["error"]))
             continue
@@ -741,7 +763,12 @@ def run_property(pid, module_names, tier="quick", jobs=None, only=None):
                 crashes.append("%s: CPython cross-check mismatch: %s" % (name, cc["mismatches"][:2]))
         if expect == "refuted":            # canary: at least one obligation must be refuted
             if not any(v["verdict"] in ("refuted", "refuted-nomodel") for v in r["vcs"]):
-                crashes.append("%s: canary obligation was not refuted (vacuous contract or unsound engine)" % name)
+                if h.opts.get("cuts") and not any("/cut/" in v["vc"] for v in r["vcs"]):
+                    # the canary's false statement sits in a cut, and no cut fired: the local it is anchored to does not exist
+                    # in this tree (renamed, or moved into a helper); the canary could not be run, which says nothing about the engine
+                    degraded.append("%s: canary not run in this tree (none of its cuts fired)" % name)
+                else:
+                    crashes.append("%s: canary obligation was not refuted (vacuous contract or unsound engine)" % name)
             continue
         for v in r["vcs"]:
             n_obl += 1
@@ -764,6 +791,17 @@ def run_property(pid, module_names, tier="quick", jobs=None, only=None):
                     undecided.append("%s: undecided outside the known-finding scope" % full)
                     continue
                 confirmed = v.get("native") == "violated"
+                lost_chain = any(w.get("verdict") in ("refuted", "refuted-nomodel") and w.get("internal") and w.get("native") != "violated"
+                                 and w.get("native_clauses") for w in r["vcs"])
+                if not confirmed and (v.get("internal") or lost_chain) and v.get("native_clauses"):
+                    # an assertion about the code's internals (cut / invariant / callee precondition) that no longer holds, while
+                    # the same harness run on the real code (the solver's model, 200 inputs next to it, 300 seeded ones) meets
+                    # every clause it states natively: the proof is stated over temporaries that this tree does not have in that
+                    # form; nothing is proved here any more, and nothing is shown to be wrong (the later obligations of the same
+                    # harness rest on that assertion, so an unconfirmed refutation among them is treated alike)
+                    degraded.append("%s: an intermediate assertion of the proof is refuted in this tree and no input of the "
+                                    "native run violates the harness: proof lost, bounded stand-in held" % full)
+                    continue
                 if any(x[0] == full for x in violations):
                     more_refuted[full] = more_refuted.get(full, 0) + 1
                     continue
@@ -773,7 +811,17 @@ def run_property(pid, module_names, tier="quick", jobs=None, only=None):
                                   confirmed=confirmed)
                 violations.append((full, rp, confirmed, v))
             else:
-                undecided.append("%s: %s (%s)" % (full, v["verdict"], v.get("detail", "")))
+                key = (r["harness"], json.dumps(r["case"], sort_keys=True, default=str))
+                if key not in fallback_done:
+                    fallback_done[key] = _native_fallback(pid, module_names, h, r["case"], name, tier, seed)
+                fb = fallback_done[key]
+                if fb[0] == "violated":
+                    if not any(x[0] == fb[1][0] for x in violations):
+                        violations.append(fb[1])
+                elif fb[0] == "ok":
+                    degraded.append("%s: %s (%s); %d native evaluations of the same harness held" % (full, v["verdict"], v.get("detail", ""), fb[1]))
+                else:
+                    undecided.append("%s: %s (%s)" % (full, v["verdict"], v.get("detail", "")))
 
     # ground (finite, completely enumerated) obligations and bounded stand-ins, run natively
     ground_info, bounded_info = [], []
@@ -870,7 +918,7 @@ def run_property(pid, module_names, tier="quick", jobs=None, only=None):
     wall = time.time() - t0
     # ------------------------------------------------------------ evidence
     level = prop.notes.get("level", "proof")
-    if violations or undecided or crashes or known_lines:
+    if violations or undecided or crashes or known_lines or degraded:
         ev_level = "other" if level == "proof" else level
     else:
         ev_level = level
@@ -888,6 +936,7 @@ def run_property(pid, module_names, tier="quick", jobs=None, only=None):
         "samples": samples or [{"note": "no symbolic obligation in this run"}],
         "known_findings_reported": known_lines,
         "undecided": undecided[:20], "engine_errors": crashes[:10],
+        "not_proved_bounded_stand_in": degraded[:40],
         "explanation": prop.notes.get("explanation", "") or (
             "contract-based deductive check (obligations/discharged above) plus bounded stand-ins; reported at level "
             "'other' when recorded known findings remain unrepaired or an obligation is undecided in this run"),
@@ -945,7 +994,34 @@ def run_property(pid, module_names, tier="quick", jobs=None, only=None):
         for u in undecided:
             print("UNDECIDED %s" % u)
         return 2
+    for d_ in degraded:
+        print("NOT-PROVED (bounded stand-in used) %s" % d_)
     return 0
+
+
+def _native_fallback(pid, module_names, h, case, name, tier, seed):
+    """bounded stand-in for a harness that could not be decided deductively in this tree: the same harness text on the real
+    code, seeded random inputs from its declared ranges.  -> ('violated', violation tuple) | ('ok', n) | ('unusable', reason)"""
+    import zlib
+    n_runs = 3000 if tier == "thorough" else 300
+    rng = random.Random(zlib.crc32(name.encode()) + 31 * seed)
+    done = 0
+    try:
+        for _ in range(n_runs):
+            st, nctx, nd = native_run(h, case, rng=rng)
+            if st == "violated":
+                inputs = {k: _jsonable(v) for k, v in dict(nctx.inputs).items()}
+                rp = write_replay(pid, module_names, h.name, case, "bounded stand-in (harness not decided deductively)", inputs, name=name,
+                                  solver_out={"verdict": "native", "backend": "native", "model": "", "native": "violated", "native_detail": nd},
+                                  confirmed=True)
+                return ("violated", (name + "/bounded stand-in", rp, True, {"inputs": inputs, "native_detail": nd}))
+            if st == "ok":
+                done += 1
+    except Exception as e:
+        return ("unusable", "%s: %s" % (type(e).__name__, e))
+    if done == 0:
+        return ("unusable", "no native evaluation passed the preconditions")
+    return ("ok", done)
 
 
 def _known_hit(kf, name, label):
